@@ -16,6 +16,9 @@ for n in sorted(os.listdir(os.path.join(V, "seeded"))):
     head = (m.get("notes_head") or "").strip().splitlines()[0] if m.get("notes_head") else ""
     head = re.sub(r"^#+\s*(Change\s*\w+\s*[-:–]*\s*)?", "", head).replace("|", "/")[:150]
     r = res.get("seeded/" + n, {})
+    if m.get("neutralised"):
+        rows.append(f"| {n} | {head} | neutralised by a later fix (see meta.json) | - |")
+        continue
     by = []
     for p, o in (r.get("results") or {}).items():
         for v in o.get("violations", [])[:2]:
